@@ -49,6 +49,10 @@ func pool(thorough bool) []cval {
 		{Src: "BaseObj", NoBang: true},
 		{Src: "IB.new(0)"}, {Src: "IB.new(3)"}, {Src: `Str.bear.new("")`}, {Src: `Str.bear.new("x")`}, {Src: "Arr.bear.new([])"}, {Src: "{}.bear"}, {Src: "{a: 1}.bear"}, {Src: "{}.bear({b: 1})"},
 		{Src: "{B: true}"}, {Src: "{B: false}"}, {Src: "{B: 1}"}, {Src: "{B: nil}"}, {Src: "{B: m{true}}"}, {Src: "{B: m{false}}"}, {Src: "{B: m{1}}"}, {Src: "{B: m{.x}, x: true}"}, {Src: "{B: m{.x}, x: 0}"},
+		// typed descendants whose own B disagrees with the built-in rule of their type
+		{Src: "Int.bear({B: m{self > 10}}).new(5)"}, {Src: "Int.bear({B: m{self > 10}}).new(50)"}, {Src: "Int.bear({B: m{self < 1}}).new(0)"}, {Src: "Int.bear({B: true}).new(0)"},
+		{Src: "Float.bear({B: m{false}}).new(1.5)"}, {Src: "Float.bear({B: m{true}}).new(0.0)"}, {Src: `Str.bear({B: m{false}}).new("x")`}, {Src: `Str.bear({B: m{true}}).new("")`},
+		{Src: "Arr.bear({B: m{false}}).new([1])"}, {Src: "Arr.bear({B: m{true}}).new([])"}, {Src: "Map.bear({B: m{true}}).new(%{})"}, {Src: "true.bear({B: false})"}, {Src: "false.bear({B: true})"}, {Src: "nil.bear({B: true})"},
 		{Src: "1.try"}, {Src: "nil.try"}, {Src: "1.try./(0)"}, {Src: "1.try./(0).err"}, {Src: `"nan".F`},
 	}
 	if thorough {
